@@ -19,7 +19,8 @@ import (
 
 type objSpec struct {
 	ID     bstr      `json:"id"`
-	Kind   int       `json:"kind"` // 0 string, 1 point, 2 bounds, 3 polygon object
+	Kind   int       `json:"kind"` // 0 string, 1 point, 2 bounds, 3 polygon object, 4 POINT with z, 5 Feature(Point with z), 6 Point geometry with z, 7 MultiPoint with z (reads z = 0)
+	Z      string    `json:"z,omitempty"` // third coordinate of kinds 4-7
 	Lat    int       `json:"lat"`
 	Lon    int       `json:"lon"`
 	Size   int       `json:"size"`   // extent of bounds/polygon in degrees
@@ -38,6 +39,14 @@ func (o objSpec) setArgs(key string) []string {
 		a = append(a, "POINT", strconv.Itoa(o.Lat), strconv.Itoa(o.Lon))
 	case 2:
 		a = append(a, "BOUNDS", strconv.Itoa(o.Lat), strconv.Itoa(o.Lon), strconv.Itoa(o.Lat+o.Size), strconv.Itoa(o.Lon+o.Size))
+	case 4:
+		a = append(a, "POINT", strconv.Itoa(o.Lat), strconv.Itoa(o.Lon), o.Z)
+	case 5:
+		a = append(a, "OBJECT", fmt.Sprintf(`{"type":"Feature","geometry":{"type":"Point","coordinates":[%d,%d,%s]},"properties":{"tag":"t"}}`, o.Lon, o.Lat, o.Z))
+	case 6:
+		a = append(a, "OBJECT", fmt.Sprintf(`{"type":"Point","coordinates":[%d,%d,%s]}`, o.Lon, o.Lat, o.Z))
+	case 7:
+		a = append(a, "OBJECT", fmt.Sprintf(`{"type":"MultiPoint","coordinates":[[%d,%d,%s]]}`, o.Lon, o.Lat, o.Z))
 	default:
 		x0, y0, x1, y1 := o.Lon, o.Lat, o.Lon+o.Size, o.Lat+o.Size
 		a = append(a, "OBJECT", fmt.Sprintf(`{"type":"Polygon","coordinates":[[[%d,%d],[%d,%d],[%d,%d],[%d,%d],[%d,%d]]]}`,
@@ -48,6 +57,16 @@ func (o objSpec) setArgs(key string) []string {
 
 // fieldOf is the reference reading of a field: normalised text, missing = 0.
 func (o objSpec) fieldOf(name string) model.FVal {
+	// z is the reserved name of the third coordinate of a point (or of a
+	// Feature around a point); every other object reads 0
+	if name == "z" {
+		if o.Kind >= 4 && o.Kind <= 6 {
+			if f, err := strconv.ParseFloat(o.Z, 64); err == nil {
+				return model.NormField(strconv.FormatFloat(f, 'f', -1, 64))
+			}
+		}
+		return model.ZeroFVal
+	}
 	// a dotted name is first read as a path into the JSON document of the
 	// field named by the part before the first dot; when that field is not a
 	// JSON document or has no such member, the name is an ordinary field name
@@ -139,6 +158,9 @@ func drawFieldValue(t *rapid.T) string {
 	return gen.FieldValue(t)
 }
 
+// third coordinates, also the pool of comparands for filters on z
+var zValues = []string{"0", "1", "50", "51", "100", "-5", "2.5", "49.5", "1000", "50"}
+
 var numericValues = []string{"0", "1", "2", "3", "-1", "-2", "1.5", "2.5", "-0.5", "1e1", "10", "100", "-3"}
 
 func drawObjects(t *rapid.T, min, max int, spread int) []objSpec {
@@ -147,7 +169,10 @@ func drawObjects(t *rapid.T, min, max int, spread int) []objSpec {
 	dotted := rapid.IntRange(0, 3).Draw(t, "dottedfields") == 0
 	for i := range objs {
 		o := objSpec{ID: bstr(fmt.Sprintf("o%02d", i))}
-		o.Kind = rapid.SampledFrom([]int{0, 0, 1, 1, 1, 2, 3}).Draw(t, "kind")
+		o.Kind = rapid.SampledFrom([]int{0, 0, 1, 1, 1, 2, 3, 4, 4, 5, 6, 7}).Draw(t, "kind")
+		if o.Kind >= 4 {
+			o.Z = rapid.SampledFrom(zValues).Draw(t, "z")
+		}
 		o.Lat = rapid.IntRange(-spread, spread).Draw(t, "lat")
 		o.Lon = rapid.IntRange(-spread, spread).Draw(t, "lon")
 		o.Size = rapid.IntRange(0, 6).Draw(t, "size")
@@ -543,6 +568,9 @@ func drawValueList(t *rapid.T, objs []objSpec, field string, n int) []bstr {
 }
 
 func drawComparand(t *rapid.T, objs []objSpec, field string) string {
+	if field == "z" && rapid.IntRange(0, 9).Draw(t, "zcmp") < 8 {
+		return rapid.SampledFrom(zValues).Draw(t, "zcmpv")
+	}
 	if strings.HasPrefix(field, "a") && rapid.IntRange(0, 9).Draw(t, "dcmp") < 6 {
 		return rapid.SampledFrom(dottedComparands).Draw(t, "dcmpv")
 	}
@@ -566,7 +594,7 @@ func drawFilter(t *rapid.T, c *ev.Collector, objs []objSpec) filtSpec {
 		}
 		return x
 	}
-	field := rapid.SampledFrom([]string{"f", "f", "g", "n1", "missing"}).Draw(t, "ffield")
+	field := rapid.SampledFrom([]string{"f", "f", "g", "n1", "missing", "z"}).Draw(t, "ffield")
 	if hasDottedFields(objs) && rapid.IntRange(0, 3).Draw(t, "dottedfilter") != 0 {
 		field = rapid.SampledFrom(dottedFilterNames).Draw(t, "dfield")
 	}
@@ -633,10 +661,13 @@ func drawFilter(t *rapid.T, c *ev.Collector, objs []objSpec) filtSpec {
 		f := filtSpec{Kind: "expr"}
 		for i := 0; i < n; i++ {
 			f.Terms = append(f.Terms, term{
-				Field: rapid.SampledFrom([]string{"n1", "n2", "nmissing"}).Draw(t, "tfield"),
+				Field: rapid.SampledFrom([]string{"n1", "n2", "nmissing", "z", "z"}).Draw(t, "tfield"),
 				Op:    rapid.SampledFrom(ops).Draw(t, "top"),
 				Num:   rapid.SampledFrom(numericValues).Draw(t, "tnum"),
 			})
+			if f.Terms[i].Field == "z" {
+				f.Terms[i].Num = rapid.SampledFrom(zValues).Draw(t, "tznum")
+			}
 			if i > 0 {
 				f.Conns = append(f.Conns, rapid.SampledFrom([]string{"&&", "||"}).Draw(t, "conn"))
 			}
@@ -732,6 +763,15 @@ func runWhereCase(t failer, c *ev.Collector, d whereCase) (labels []string, nont
 		if f.usesNonFinite(d.Objs) {
 			labels = append(labels, "nan-or-inf-compared:"+f.Kind)
 		}
+		if f.Field == "z" {
+			labels = append(labels, "filter-on-z:"+f.Kind)
+		}
+		for _, tm := range f.Terms {
+			if tm.Field == "z" {
+				labels = append(labels, "filter-on-z:expr")
+				break
+			}
+		}
 		if f.Field == "missing" {
 			labels = append(labels, "filter-on-missing-field")
 		}
@@ -769,9 +809,9 @@ func flatten(fs [][]bstr) []string {
 func TestC12_Where(t *testing.T) {
 	c := ev.New("C12", "where", "exploration")
 	t.Cleanup(c.Flush)
-	c.Rule("server level: 3-25 objects (strings, points, bounds, polygons) with fields f,g holding values of every kind (numbers incl. NaN and +-Inf in several spellings, also as comparands of every filter form (as lower bound in the exclusive (nan form), strings of both cases, true/false/null, JSON containers, quoted strings, padded text) or missing, n1,n2 numeric or missing; in 1 of 4 datasets also fields named a, a-, a.b, a.x, a/ (JSON documents and scalars) with filters on a.x, a.b, a.b.x, a.z.1, a-.x, ... read as member of the JSON field a, else the field literally named so; base query SCAN/SEARCH/WITHIN/INTERSECTS (whole world)/NEARBY; 1-3 filters (1 in 8 cases: a clause count from the same threshold set up to 33, extra clauses mostly repeating an earlier one in another spelling) out of WHERE f min max (numbers, +-inf, '(' exclusive bounds, JSON-quoted strings, JSON containers), WHERE f op v for the six operators, WHEREIN f n v.. (n = 0..3, or n drawn from {1-5,7-9,15-17,31-33,63-65,100,129}: stored values under an equal-but-different spelling - 1/1.0/1e0/1e+00, 10/1e1, 0/-0/0.0, ASCII case variants, JSON-quoted strings, padding, re-spaced JSON - stored values as they are, fresh values of every kind, duplicates), WHERE \"n1 op num (&&,||) ..\" (numeric expression class, evaluated by a small evaluator with && binding tighter). Oracle: filtered IDS == [id in the unfiltered reply : every filter holds under model.NormField / Less with missing = 0]; DESC == reverse; COUNT == len(IDS); LIMIT prefix/min; CURSOR c COUNT == len(CURSOR c IDS). Comparands are drawn mostly from the stored values so equality and boundary cases occur. Non-trivial: the filters keep some but not all items, some comparison is between two different kinds, and the collection mixes strings and geometries; distinct by (filters, field values).")
+	c.Rule("server level: 3-25 objects (strings, points, bounds, polygons, and objects with a third coordinate: POINT lat lon z, Feature around a 3-coordinate Point, 3-coordinate Point geometry, MultiPoint with z (reads 0); filters on the reserved name z in range, operator, WHEREIN and quoted-expression form read that coordinate, 0 for every other object) with fields f,g holding values of every kind (numbers incl. NaN and +-Inf in several spellings, also as comparands of every filter form (as lower bound in the exclusive (nan form), strings of both cases, true/false/null, JSON containers, quoted strings, padded text) or missing, n1,n2 numeric or missing; in 1 of 4 datasets also fields named a, a-, a.b, a.x, a/ (JSON documents and scalars) with filters on a.x, a.b, a.b.x, a.z.1, a-.x, ... read as member of the JSON field a, else the field literally named so; base query SCAN/SEARCH/WITHIN/INTERSECTS (whole world)/NEARBY; 1-3 filters (1 in 8 cases: a clause count from the same threshold set up to 33, extra clauses mostly repeating an earlier one in another spelling) out of WHERE f min max (numbers, +-inf, '(' exclusive bounds, JSON-quoted strings, JSON containers), WHERE f op v for the six operators, WHEREIN f n v.. (n = 0..3, or n drawn from {1-5,7-9,15-17,31-33,63-65,100,129}: stored values under an equal-but-different spelling - 1/1.0/1e0/1e+00, 10/1e1, 0/-0/0.0, ASCII case variants, JSON-quoted strings, padding, re-spaced JSON - stored values as they are, fresh values of every kind, duplicates), WHERE \"n1 op num (&&,||) ..\" (numeric expression class, evaluated by a small evaluator with && binding tighter). Oracle: filtered IDS == [id in the unfiltered reply : every filter holds under model.NormField / Less with missing = 0]; DESC == reverse; COUNT == len(IDS); LIMIT prefix/min; CURSOR c COUNT == len(CURSOR c IDS). Comparands are drawn mostly from the stored values so equality and boundary cases occur. Non-trivial: the filters keep some but not all items, some comparison is between two different kinds, and the collection mixes strings and geometries; distinct by (filters, field values).")
 	c.Assume("expression-mode WHERE follows JavaScript semantics for numeric comparisons and && / || precedence (tidwall/expr); only that numeric class is generated")
-	c.Note("NaN has a fixed place in the reference order (before every other number, equal only to NaN); WHERE on the reserved names z / properties.* is not generated")
+	c.Note("NaN has a fixed place in the reference order (before every other number, equal only to NaN); WHERE on properties.* is not generated")
 	ev.Rapid("where", ev.Pick(5000, 50000))
 	rapid.Check(t, func(rt *rapid.T) {
 		objs := drawObjects(rt, 3, 25, 8)
